@@ -4,6 +4,7 @@ from sa.report import Check
 from sa.rules import backend as B
 from sa.rules import cpp_rules as C
 from sa.rules import pipeline as P
+from sa.rules import ranges as RG
 
 
 def main(tier):
@@ -21,7 +22,8 @@ def main(tier):
             "are refused by a static_assert (R-WIDTHS); sibling view signatures are callable (R-SIBLING) and every "
             "method the templates call exists on every view kind (R-IFACE); reserved words are rejected for all named "
             "kinds (R-NAMEDKINDS); integer literals reach C++ only through _render_integer (R-RENDERINT); supported "
-            "enum cases have conversions (R-ENUMCASE). Not decided: well-formedness for every accepted program."))
+            "enum cases have conversions (R-ENUMCASE); the C++ integer type chosen for a constant or expression holds exactly the "
+            "range it is chosen for, and the front end's width limits equal the runtime's (R-INTRANGE, R-BOUNDARY). Not decided: well-formedness for every accepted program."))
     r, s = cx.repo, cx.schema
     chk.run("R-TEMPLATE", B.template_rule, r, floor=80)
     chk.run("R-RTSYMS", C.rtsyms, r, cx.cpp, cx.templates, floor=10)
@@ -33,4 +35,6 @@ def main(tier):
     chk.run("R-NAMEDKINDS", P.namedkinds, r, s, cx.sites, floor=10)
     chk.run("R-RENDERINT", B.renderint, r, floor=100)
     chk.run("R-ENUMCASE", B.enumcase, r, floor=2)
+    chk.run("R-INTRANGE", RG.intrange, r, floor=190)
+    chk.run("R-BOUNDARY", RG.boundary, r, floor=130)
     return chk.finish()
